@@ -1,3 +1,82 @@
-/-  C19/Theorems — the ledger for property C19 (every theorem here is audited).  Placeholder. -/
+/-
+  C19/Theorems — the ledger for property C19.  Every `theorem` here is audited
+  (`#print axioms` ⊆ {propext, Classical.choice, Quot.sound}) on every run.
+-/
+import OttoVerif.C19.Lemmas
 namespace OttoVerif.C19.Thm
+open OttoVerif.C19
+
+/-! ## positions -/
+
+/-- `parser.position` agrees with §7.3 on every source and every offset inside it. -/
+theorem lineCount_spec (src : Src) (off : Nat) (h : off ≤ src.length) :
+    parserPosition src off = Spec.position src off := by
+  have hl : (src.take off).length = off := by simp [List.length_take]; omega
+  have := (sim (src.take off)).1 0 0 (-1) 0 (by omega) (by omega) (by omega) (by omega)
+  have hc : colAt (0 + 0) (-1) = 1 := by decide
+  simp only [Nat.zero_add, hl] at this
+  rw [Nat.zero_add] at hc
+  rw [hc] at this
+  simp only [parserPosition, lineCount, Spec.position, hl]
+  rw [← this]
+  simp [fin]
+
+
+/-- `file.Position` agrees with §7.3 wherever no lone <CR>, <LS> or <PS> precedes the offset. -/
+theorem position_lf (src : Src) (idx : Int) (h : Spec.cleanAt src (idx - 1) = true) :
+    filePosition src 1 idx = Spec.positionAt src (idx - 1) := by
+  unfold filePosition Spec.positionAt
+  by_cases hr : 0 ≤ idx - 1 ∧ idx - 1 < (src.length : Int)
+  · have hn : ¬ (idx - 1 ≥ (src.length : Int) ∨ idx - 1 < 0) := by omega
+    simp only [hn, hr, if_false]
+    simp only [Spec.cleanAt, hr] at h
+    have hlen : (src.take (idx - 1).toNat).length = (idx - 1).toNat := by
+      simp [List.length_take]; omega
+    have := walk_clean _ (src.take (idx - 1).toNat) (Nat.le_refl _) h 1 1
+    simp only [Spec.position, this, colLF, hlen]
+    cases hj : lastIndexLF (src.take (idx - 1).toNat) with
+    | some k => simp; omega
+    | none => simp; omega
+  · have hn : (idx - 1 ≥ (src.length : Int) ∨ idx - 1 < 0) := by omega
+    simp only [hn, hr, if_true, if_false]
+
+
+/-- Dev `position_cr`: after a lone <CR> (or <LS>/<PS>) `file.Position` stays on the old line. -/
+example : Spec.cleanAt [0x61, 13, 0x62] 2 = false ∧
+    filePosition [0x61, 13, 0x62] 1 3 ≠ Spec.positionAt [0x61, 13, 0x62] 2 := by decide
+example : filePosition [0xE2, 0x80, 0xA8, 0x62] 1 4 = some (1, 4) ∧ Spec.positionAt [0xE2, 0x80, 0xA8, 0x62] 3 = some (2, 1) := by decide
+/-- non-vacuity: <CR><LF> line ends are inside the proved region -/
+example : Spec.cleanAt [0x61, 13, 10, 0x62, 10, 0x63] 5 = true ∧ filePosition [0x61, 13, 10, 0x62, 10, 0x63] 1 6 = some (3, 1) := by decide
+
+/-! ## classes -/
+
+theorem error_class (k : ErrKind) :
+    (caught k).name = Spec.errClass k ∧ (caught k).instanceOf = [Spec.errClass k, "Error"] := by
+  cases k <;> decide
+
+theorem error_class_full (k : ErrKind) (h : (errTable k).2 = true) : caught k = Spec.caught k := by
+  cases k <;> first | rfl | (simp [errTable] at h)
+
+
+/-- Dev `msg_empty`: an invalid array length raises a RangeError with an empty message. -/
+example : caught .arrayLenCtor ≠ Spec.caught .arrayLenCtor ∧ (errTable .arrayLenCtor).2 = false := by decide
+
+/-! ## text of the error returned by Run -/
+
+theorem run_error_text (t : Thrown) (h : Spec.staleText t = false) :
+    runErrorText t = Spec.runErrorText t := by
+  cases t with
+  | prim s => rfl
+  | obj s => rfl
+  | errObj n m cn cm =>
+    simp [Spec.staleText] at h
+    obtain ⟨h1, h2⟩ := h
+    subst h1; subst h2
+    simp [runErrorText, Spec.runErrorText, format, Spec.errorToString]
+
+example : Spec.staleText (.errObj "Error" "x" (some "Foo") (some "x")) = true ∧
+    runErrorText (.errObj "Error" "x" (some "Foo") (some "x")) ≠ Spec.runErrorText (.errObj "Error" "x" (some "Foo") (some "x")) := by
+  decide
+
+
 end OttoVerif.C19.Thm
